@@ -83,8 +83,12 @@ def generate(seed, tier="quick"):
     # black fails for some of the value fragments it is asked to format (and only for them): the whole-file pass still runs
     grng = sub(seed, "fragment-failures")
     frag_fail = sorted(grng.sample(range(0, 6), grng.randint(1, 3))) if (not elsewhere and grng.random() < 0.2) else None
-    return {"program": prog, "black": draw_mode(sub(seed, "mode")), "steps": steps, "clean": sub(seed, "clean").random() < (0.5 if elsewhere else 0.75), "subdir": subdir,
-            "elsewhere": elsewhere, "frag_fail": frag_fail}
+    clean = sub(seed, "clean").random() < (0.5 if elsewhere else 0.75)
+    # a transient failure of black: the first request to format the new content of a whole file fails, the later ones (among them the one whose
+    # result is written) work; only for projects whose files are clean (the originals are fixed points, so the failure hits new content)
+    transient = clean and not elsewhere and not frag_fail and sub(seed, "transient").random() < 0.2
+    return {"program": prog, "black": draw_mode(sub(seed, "mode")), "steps": steps, "clean": clean, "subdir": subdir,
+            "elsewhere": elsewhere, "frag_fail": frag_fail, "transient": transient}
 
 
 def execute(case, ctx):
@@ -123,6 +127,9 @@ def execute(case, ctx):
         if case.get("frag_fail"):
             ctx.count("probe_black_fails_for_single_fragments")
             spec["fmt"] = {"kind": "raises", "fragments_at": case["frag_fail"]}
+        if case.get("transient"):
+            ctx.count("probe_transient_failure_of_black_on_a_whole_file")
+            spec["fmt"] = {"kind": "raises", "transient_whole_file": True}
         new, res = sim.run_session(ctx, "plugin", cur, spec)
         if not sim.session_completed("plugin", res):
             out["discards"]["session-did-not-complete(C18)"] = 1
@@ -187,6 +194,8 @@ def shrink(case):
         yield dict(case, elsewhere=False)
     if case.get("frag_fail"):
         yield dict(case, frag_fail=None)
+    if case.get("transient"):
+        yield dict(case, transient=False)
     for k in list(case["black"]):
         b = dict(case["black"])
         del b[k]
